@@ -7,6 +7,7 @@ CONSTANTS
   Grid = "tiny"
   Preamble = TRUE
   Header = "fixed"
+  OneFree = TRUE
   NonFinite = FALSE
 INIT Init
 NEXT Next
